@@ -178,3 +178,37 @@ Definition check_nrun (g1 g2 : goc) (chk : bool) (prog : dprog) (ops : list nop)
   let '(l, t) := nrun g1 g2 chk prog [] ops in
   bools_eqb l oks && shape_eqb (tree_shape t) after
   && forallb (fun pb => Bool.eqb (match nlookup t (fst pb) with Some _ => true | None => false end) (snd pb)) probes.
+
+(** The same through the program compiled from load_dirfile (Fmt/VpkDirRead.v [rexec] over Gen/VpkDirProg_gen.v [g_rprog]). *)
+From SV Require Import Fmt.VpkDirProg Fmt.VpkDirRead.
+Definition check_decode_p (dc : dcfg) (p : rprog) (file : bytes) (ex : option (N * list ent_t * (N * N))) : bool :=
+  match rexec dc p file, ex with
+  | None, None => true
+  | Some (v, es, f), Some (xv, xs, fd) => (v =? xv) && ent_match xs (load_table es) && dg_eqb (dg f) fd
+  | _, _ => false
+  end.
+
+(** Plain histories (no with-blocks, no load_dirfile() on the same object) through the machine assembled from the generated objects
+    (SM/VpkGenMachine.v [gstep]: FileInfo.write from the placement table, write_dirfile / reopen as the translated programs). *)
+From SV Require Import SM.VpkPlace SM.VpkPlaceTable SM.VpkGenMachine.
+Fixpoint gtrace (pt : list prow) (wp : wprog) (rp : rprog) (cf : vcfg) (st : vstate) (ops : list op) : option (vstate * list N) :=
+  match ops with
+  | [] => Some (st, [])
+  | o :: r => match gstep pt wp rp fcrc32 cf st o with
+              | None => None
+              | Some (st', c) => match gtrace pt wp rp cf st' r with
+                                 | None => None
+                                 | Some (st'', t) => Some (st'', c :: summary cf st' ++ t) end
+              end
+  end.
+Definition check_gcase (pt : list prow) (wp : wprog) (rp : rprog) (cf : vcfg) (ops : list op) (tr : list N) (fin : list obs_t) (dsk : N * N)
+           (ars : list (N * (N * N))) : N :=
+  match gtrace pt wp rp cf (init) ops with
+  | None => 1
+  | Some (st, t) =>
+      if negb (nlist_eqb t tr) then 2
+      else if negb (obs_match fin (model_obs cf st)) then 3
+      else if negb (dg_eqb (dg (disk st)) dsk) then 4
+      else if negb (archs_match ars st) then 5
+      else 0
+  end.
